@@ -499,6 +499,12 @@ func ProfileByName(name string) Profile {
 		p.NilBias = true
 		p.PSpecialFloat = 35
 		p.Kinds = []string{KString, KInt, KFloat64, KFloat64, KFloat32, KInt64, KBool, KTime} // floats: NaN and the infinities are values too
+	case "C06":
+		// hostile values for every test: NaN and the infinities, wrong dynamic types, long lists
+		p.PSpecialFloat = 25
+		p.PWrongType = 25
+		p.PTests = 85
+		p.Kinds = []string{KString, KInt, KFloat64, KFloat64, KFloat32, KInt32, KInt64, KBool, KTime}
 	case "C02":
 		p.PInvalid = 45
 		p.PTests = 75
